@@ -58,6 +58,10 @@ class CallsMixin:
 
     def call_static(self, st, fr, b, i, ins, callee, binds, args, inline_ok):
         cx = self.cx
+        if callee.startswith('slices::ContainsFunc[') or callee.startswith('slices::IndexFunc['):
+            return self.ho_contains(st, fr, ins, callee, args)
+        if callee.startswith('slices::Contains[') or callee.startswith('slices::Index['):
+            return self.ho_contains_val(st, fr, ins, callee, args)
         con = self.prog.cs.funcs.get(callee)
         if con is not None and not con.inline:
             sig = self.prog.sigs.get(callee) or {}
@@ -165,6 +169,94 @@ class CallsMixin:
         sig = self.types.desc(fv.t)
         rtypes = [r['type'] for r in (sig.get('results') or [])]
         return self.call_opaque(st, fr, ins, 'funcvalue ' + fv.t, args, rtypes)
+
+    # ------------------------------------------------------------ higher-order library calls
+    def closure_pred(self, st, fv):
+        """(contract, param names, definition expr) of a pure closure/function used as a predicate:
+        its contract must contain `ensures result == <expr>`"""
+        con = self.prog.cs.funcs.get(fv.fn) if fv.fn else None
+        if con is None:
+            return None
+        for c in con.ensures:
+            e = c.expr
+            if e[0] == 'bin' and e[1] == '==' and e[2] == ('id', 'result'):
+                return con, e[3]
+        return None
+
+    def ho_contains(self, st, fr, ins, callee, args):
+        """slices.ContainsFunc(s, f) / IndexFunc: f's contract `ensures result == E` is the predicate"""
+        cx = self.cx
+        types = self.types
+        s, f = args
+        pr = self.closure_pred(st, f)
+        if pr is None:
+            return self.call_opaque(st, fr, ins, callee, args)
+        con, body = pr
+        cx.assumed_used.add(callee.split('[')[0] + ' (built-in contract: exists over the predicate closure contract)')
+        fnd = self.prog.funcs.get(f.fn) or {}
+        sig = self.prog.sigs.get(f.fn) or {}
+        params = fnd.get('params') or sig.get('params') or []
+        fvs = fnd.get('freevars') or []
+        me = cx.short if fr is cx.top else fr.fnkey.split('::')[1]
+
+        def pred_at(k, quant=True, which='body'):
+            elem = st.load(st.elem_loc(s, k), facts=False)
+            env = {}
+            pn = params[-1]['name'] if params else 'arg0'
+            env[pn] = Val(params[-1]['type'], elem.lv) if params else elem
+            # bound method receivers / earlier params are not supported; free variables:
+            for fvd, bv in zip(fvs, f.bindings or []):
+                if types.kind(bv.t) == 'ptr' and types.kind(fvd['type']) == 'ptr':
+                    env[fvd['name']] = (lambda bv=bv: st.load(st.ptr_loc(bv), facts=False))
+                else:
+                    env[fvd['name']] = bv
+            ev = Ev(cx, st, env, con.pkg, None, con.imports, None, quant)
+            if which == 'body':
+                return ev.bool(body)
+            return z3.And([ev.bool(c.expr) for c in con.requires]) if con.requires else z3.BoolVal(True)
+        n = s.lv[('l',)]
+        k = z3.Int(fresh_name('hk'))
+        try:
+            req = pred_at(k, True, 'req')
+            cx.prove(st, z3.ForAll([k], z3.Implies(z3.And(k >= 0, k < n), req)),
+                     '%s.call[%s].predicate-requires' % (me, callee.split('::')[1].split('[')[0]), 'call-requires',
+                     ins.get('pos'), 'precondition of the predicate closure on every element')
+            bodyk = pred_at(k)
+        except SpecError as ex:
+            cx.stale('%s.call[%s]' % (me, callee), str(ex))
+            return self.call_opaque(st, fr, ins, callee, args)
+        rt = ins['type']
+        if 'IndexFunc' in callee:
+            r = z3.Int(fresh_name('idx'))
+            j = z3.Int(fresh_name('hj'))
+            st.assume(z3.And(r >= -1, r < n))
+            st.assume(z3.Implies(r >= 0, z3.substitute(bodyk, (k, r))))
+            st.assume(z3.ForAll([j], z3.Implies(z3.And(j >= 0, j < z3.If(r >= 0, r, n)), z3.Not(z3.substitute(bodyk, (k, j))))))
+            st.regs[ins['name']] = scalar(rt, r)
+        else:
+            st.regs[ins['name']] = scalar(rt, z3.Exists([k], z3.And(k >= 0, k < n, bodyk)))
+        return None
+
+    def ho_contains_val(self, st, fr, ins, callee, args):
+        cx = self.cx
+        types = self.types
+        s, v = args
+        cx.assumed_used.add(callee.split('[')[0] + ' (built-in contract: exists i: s[i] == v)')
+        n = s.lv[('l',)]
+        k = z3.Int(fresh_name('hk'))
+        elem = st.load(st.elem_loc(s, k), facts=False)
+        eq = V.eq_vals(types, Val(v.t, elem.lv), v, None)
+        rt = ins['type']
+        if 'Index[' in callee:
+            r = z3.Int(fresh_name('idx'))
+            j = z3.Int(fresh_name('hj'))
+            st.assume(z3.And(r >= -1, r < n))
+            st.assume(z3.Implies(r >= 0, z3.substitute(eq, (k, r))))
+            st.assume(z3.ForAll([j], z3.Implies(z3.And(j >= 0, j < z3.If(r >= 0, r, n)), z3.Not(z3.substitute(eq, (k, j))))))
+            st.regs[ins['name']] = scalar(rt, r)
+        else:
+            st.regs[ins['name']] = scalar(rt, z3.Exists([k], z3.And(k >= 0, k < n, eq)))
+        return None
 
     # ------------------------------------------------------------ inlining
     def call_inline(self, st, fr, b, i, ins, callee, fnd, binds, args):
